@@ -7,4 +7,4 @@ CLAIMS = {
              note="assumed: composite-ness selection of execute_entry/exit overloads is compile time; behaviours are stubs; cxx2c rule table; CBMC"),
 }
 NOT_APPLICABLE = {p: NOT_BUILT for p in ['C%02d' % i for i in range(1, 21)]}
-FIX_COMMITS = []
+FIX_COMMITS = ['c257ff1']
